@@ -70,6 +70,11 @@ CHECKS = {
    technique="exhaustive enumeration of unset-required-field subsets x nesting positions; differential oracle against the reference runtime's initialisation verdict",
    text="Every proto2 corpus type with required fields: every subset of unset required fields (exhaustive up to 6 fields, structured subsets for the 17-field message), with/without other content, deficient and complete nested messages in singular / list / map-value / oneof positions, empty message and empty input, for every runtime. Marshal, MarshalTo and csproto.Marshal must fail iff proto.CheckInitialized of the tree fails; generated Unmarshal of the reference's partial encoding must fail iff the reference's strict Unmarshal does.",
    note="Reference = google.golang.org/protobuf dynamicpb over independently built descriptors. Extension positions with required fields are not enumerated."),
+
+ "C08": dict(level="exploration", design="DESIGN.md §7 C08",
+   technique="exhaustive mutation families (every truncation, every single-byte replacement from an 11-value menu at every offset, every length-prefix inflation) over canonical encodings of all corpus value trees + all short byte strings over a wire alphabet; differential oracle on commonly accepted inputs; crash-attributing subprocess workers",
+   text="For every corpus type x runtime: all truncations, all byte replacements at all offsets, all length-prefix inflations (with per-case allocation budget) of every seed encoding, and every byte string <= 3 (4) over a 16-symbol alphabet. No panic, no worker death under an address-space limit, allocation linear in the input, and whenever generated Unmarshal and the reference both accept, the decoded trees are equal.",
+   note="Agreement is only required on commonly accepted inputs. Disagreements caused by triaged mechanisms (map-entry shape, unsupported extension shapes) are attributed by a structural classifier and listed as known findings."),
 }
 
 NOT_YET = {}
